@@ -18,6 +18,7 @@ import (
 	"reflect"
 	"sync"
 	"testing"
+	"time"
 
 	jsonrpc "github.com/filecoin-project/go-jsonrpc"
 	"pgregory.net/rapid"
@@ -247,12 +248,14 @@ func newC11Env() (*c11Env, error) {
 	return env, nil
 }
 
-func (e *c11Env) Close() {
+func (e *c11Env) Close() { bounded(5*time.Second, e.closeInner) }
+
+func (e *c11Env) closeInner() {
 	for _, ep := range e.eps {
 		for _, c := range ep.closers {
 			c()
 		}
-		ep.srv.Close()
+		closeTestServer(ep.srv)
 	}
 }
 
